@@ -196,7 +196,7 @@ def slug(s):
 
 def out_root():
     """Evidence and replays of a trial against another tree (sensitivity mutants) never touch the real ones."""
-    if os.path.realpath(overlay.repo_root()) == "/repo":
+    if os.path.realpath(overlay.repo_root()) == "/repo" and not os.environ.get("VERIF_STAGES"):
         return ROOT
     d = os.path.join(ROOT, ".run", "trial")
     os.makedirs(d, exist_ok=True)
@@ -263,6 +263,8 @@ def _main(prop, tier, seed, replay_file, scratch, t0):
     overlays = {"plain": overlay.build("plain")}
     desc = describe(prop, tier, overlays["plain"], scratch)
     stages = desc["stages"]
+    if os.environ.get("VERIF_STAGES"):          # development aid: run only the named stages (evidence and replays go to .run/trial)
+        stages = [x for x in stages if x["name"] in os.environ["VERIF_STAGES"].split(",")]
     if any(s["kind"] == "fuzz" for s in stages):
         overlay.ensure_atheris()
     for s in stages:
